@@ -528,6 +528,12 @@ theorem step_keeps_cfg (sw : Switches) (loadF : LoadF) (n : Ident) (s : Stmt) (h
     repeat' split at h
     all_goals (first | cases h | skip)
     all_goals exact ⟨rfl, rfl, rfl⟩
+  | fail e => simp [step] at h
+  | loadCssSpec url withs =>
+    simp only [step] at h
+    repeat' split at h
+    all_goals (first | cases h | skip)
+    all_goals exact ⟨rfl, rfl, rfl⟩
 
 theorem evalStmts_keeps_cfg (sw : Switches) (loadF : LoadF) (n : Ident) :
     ∀ (ss : List Stmt), (∀ s ∈ ss, keepsCfg n s = true) → ∀ (env : Env) (base : List (Ident × Val)) (ex : Bool) (st : St)
@@ -823,5 +829,169 @@ example : cannotConsume [srcA, srcFw [(['y'], 7, true)]] 2 (Url.flat ['m'] false
     cannotConsume [srcA, srcFw [(['x'], 7, false)]] 2 (Url.flat ['m'] false) (some ['z']) = false ∧
     resErr (run .now [srcA, srcFw [(['x'], 7, false)], (ModSrc.flat ['e'] false [.use (Url.flat ['m'] false) .dflt [(['z'], 8)]])] ['e']).res
       = none := by decide
+
+end Grass.Module
+
+/-! ## @import of plain sheets and meta.load-css (round 3)
+
+  `runX` = `run` on the project after inclusion (`expandProj`), so (1)–(7) above hold for projects
+  with `@import` / `load-css` as well; stated here for the entry points the driver uses. -/
+
+namespace Grass.Module
+
+/-- **Loads once, with `@import` and `load-css`.** However often sheets are included, and for both
+    variants of `load-css`, no module starts evaluation twice. -/
+theorem C12_x_loads_once (xsw : XSwitches) (xp : XProject) (entry : Ident) :
+    (runX xsw xp entry).st.entered.Nodup := by
+  unfold runX
+  split
+  · exact C12_loads_once _ _ _
+  · exact List.nodup_nil
+
+/-- **CSS once, with `@import` and `load-css`** (`wf` of the included project: the driver checks it). -/
+theorem C12_x_once_holds (xsw : XSwitches) (xp : XProject) (entry : Ident)
+    (hwf : (expandProj xsw.loadCssIsImport xp).wf = true) :
+    onceOK (runX xsw xp entry).st.entered (cssOf (runX xsw xp entry).st.trace) = true := by
+  unfold runX
+  split
+  · exact C12_once_holds _ _ _ hwf
+  · decide
+
+theorem C12_x_fuel_suffices (xsw : XSwitches) (xp : XProject) (entry : Ident) :
+    (runX xsw xp entry).res ≠ .error .outOfFuel := by
+  unfold runX
+  split
+  · exact C12_fuel_suffices _ _ _
+  · simp
+
+/-- **`@import` is inclusion.** An `@import` that resolves to a plain sheet (no `@use`/`@forward`,
+    no syntax error, not being imported already) stands for the statements of that sheet, with the
+    sheet pushed on the import stack. -/
+theorem C12_import_is_inclusion (asFound : Bool) (xp : XProject) (fuel : Nat) (stack : List Ident) (u : Url) (f : XSrc)
+    (hres : resolveX xp u = some f) (hparse : f.parseError = false) (hstack : stack.contains f.name = false)
+    (hsheet : f.sheet = true) (hok : f.body.all sheetStmtOK = true) (hplain : f.body.any XStmt.isLoad = false) :
+    expandStmts asFound xp (fuel + 1) stack [.imp u] = expandStmts asFound xp fuel (f.name :: stack) f.body := by
+  simp only [expandStmts, List.flatMap_cons, List.flatMap_nil, List.append_nil, hres, hparse, hstack, hsheet, hok, hplain,
+    Bool.not_true, Bool.or_self, Bool.or_false, Bool.false_eq_true, if_false]
+
+/-- **Import cycles are errors.** An `@import` of a sheet that is being imported is the error
+    `importLoop` ("This file is already being loaded.") at that point: nothing of it is evaluated,
+    and the statements after it are not reached. -/
+theorem C12_import_cycle_is_error (sw : Switches) (loadF : LoadF) (asFound : Bool) (xp : XProject) (fuel : Nat)
+    (stack : List Ident) (u : Url) (f : XSrc) (rest : List XStmt) (env : Env) (cfg : Cfg) (st : St)
+    (hres : resolveX xp u = some f) (hparse : f.parseError = false) (hstack : stack.contains f.name = true) :
+    evalStmts sw loadF (expandStmts asFound xp (fuel + 1) stack (.imp u :: rest)) env cfg st
+      = ⟨st, .error .importLoop⟩ := by
+  simp only [expandStmts, List.flatMap_cons, hres, hparse, hstack, Bool.false_eq_true, if_false, if_true,
+    List.singleton_append, List.cons_append, List.nil_append, evalStmts, step, ImpErr.toErr]
+
+/-- **`load-css` as specified exposes nothing.** Whatever the loaded module declares, forwards or
+    uses, the environment (variables, functions, mixins, namespaces, `as *` modules, forwards) and
+    the configuration of the caller are unchanged. -/
+theorem C12_loadcss_spec_no_leak (sw : Switches) (loadF : LoadF) (url : Url) (withs : List (Ident × Val))
+    (env env' : Env) (cfg cfg' : Cfg) (st : St)
+    (h : (step sw loadF (.loadCssSpec url withs) env cfg st).res = .ok (env', cfg')) : env' = env ∧ cfg' = cfg := by
+  simp only [step] at h
+  repeat' split at h
+  all_goals (first | cases h | skip)
+  all_goals exact ⟨rfl, rfl⟩
+
+/-- **`load-css` as specified loads like `@use … with`.** Same loader call (same cache, same active
+    set, same configuration), hence the same shared state afterwards; and it fails whenever the
+    `@use` would fail for a reason other than its namespace (`$with` naming a variable that is not
+    `!default`, unknown, or of a module already loaded; a module loop; a missing file). -/
+theorem C12_loadcss_spec_like_use (sw : Switches) (loadF : LoadF) (url : Url) (ns : UseNs) (withs : List (Ident × Val))
+    (env : Env) (cfg : Cfg) (st : St) :
+    (step sw loadF (.loadCssSpec url withs) env cfg st).st = (step sw loadF (.use url ns withs) env cfg st).st ∧
+    (∀ r, (step sw loadF (.use url ns withs) env cfg st).res = .ok r →
+      (step sw loadF (.loadCssSpec url withs) env cfg st).res = .ok (env, cfg)) := by
+  simp only [step]
+  generalize (if withs.isEmpty = true then Cfg.empty else ({ base := withs, layers := [], explicit := true } : Cfg)) = c0
+  cases hr : (loadF url c0 st).res with
+  | error e => exact ⟨rfl, by intro r h; cases h⟩
+  | ok r =>
+    obtain ⟨id, c1⟩ := r
+    simp only
+    cases addModule sw env ns url.base id (loadF url c0 st).st.mods with
+    | error e =>
+      refine ⟨?_, by intro r h; cases h⟩
+      split <;> rfl
+    | ok env' =>
+      simp only
+      split
+      · exact ⟨rfl, by intro r h; cases h⟩
+      · exact ⟨rfl, fun _ _ => rfl⟩
+
+/-- **`load-css` as specified cannot configure a loaded module**: `$with` for a sheet that is
+    already in the cache is an error, as for `@use` (`C12_with_after_load_is_error`). -/
+theorem C12_loadcss_spec_with_after_load_is_error (sw : Switches) (proj : Project) (fuel : Nat) (url : Url)
+    (withs : List (Ident × Val)) (env : Env) (cfg : Cfg) (st : St) (src : ModSrc) (id : Nat)
+    (hres : resolve proj url = some src) (hloaded : findLoaded st.mods src.name = some id) (hw : withs ≠ []) :
+    ∃ e, (step sw (load sw proj (fuel + 1)) (.loadCssSpec url withs) env cfg st).res = .error e := by
+  have hne : withs.isEmpty = false := by cases withs <;> simp_all
+  by_cases hp : src.parseError = true
+  · exact ⟨.privateAccess, by simp [step, load, hres, hp]⟩
+  · by_cases ha : st.active.contains src.name = true
+    · exact ⟨.moduleLoop, by simp only [step, hne, load, hres, hp, ha]; simp⟩
+    · have hl : load sw proj (fuel + 1) url ⟨withs, [], true⟩ st = ⟨st, .ok (id, ⟨withs, [], true⟩)⟩ := by
+        simp only [load, hres, hp, ha, hloaded]; simp
+      have : (⟨withs, [], true⟩ : Cfg).leftover = true := by simp [Cfg.leftover, Cfg.isEmpty, layersEmpty, hne]
+      simp only [step, hne, Bool.false_eq_true, if_false, hl, this, if_true]
+      exact ⟨_, rfl⟩
+
+private def xB : XSrc := ⟨['b'], [['b']], false, [.base (.var ['x'] 1 true), .base .dbg, .base .css]⟩
+/-- sheet `s`: `@use "b"; $y: 5 !default; p7 { r: $y }` -/
+private def xS : XSrc := ⟨['s'], [['s']], true,
+  [.base (.use (Url.flat ['b'] false) .dflt []), .base (.var ['y'] 5 true), .base (.probe 7 false .var none ['y'])]⟩
+private def xMain (body : List XStmt) : XSrc := ⟨['e'], [['e']], false, body⟩
+private def lc (w : List (Ident × Val)) : XStmt := .loadCss (Url.flat ['s'] false) w
+
+/-- Witnesses of known finding C12-loadCssIsImport (meta.rs:70).  As found, `load-css`
+    (1) makes the members of the sheet visible to the caller (`$y` readable after the call; as
+    specified: undefined variable), (2) adds the namespaces of the sheet's `@use` rules to the caller,
+    so a second `load-css` of the same sheet fails with `nsExists` (as specified: fine, nothing is
+    evaluated again), (3) ignores `$with` (`$y` stays 5; as specified a `!default` variable takes the
+    configured value — and a `$with` naming nothing configurable is an error). -/
+theorem C12_asFound_loadcss_is_import :
+    (resErr (runX .now [xB, xS, xMain [lc [], .base (.probe 1 false .var none ['y'])]] ['e']).res = none ∧
+      resErr (runX .spec [xB, xS, xMain [lc [], .base (.probe 1 false .var none ['y'])]] ['e']).res = some .undefVar) ∧
+    (resErr (runX .now [xB, xS, xMain [lc [], lc []]] ['e']).res = some .nsExists ∧
+      resErr (runX .spec [xB, xS, xMain [lc [], lc []]] ['e']).res = none ∧
+      (runX .spec [xB, xS, xMain [lc [], lc []]] ['e']).st.entered = [['e'], ['s'], ['b']]) ∧
+    ((runX .now [xB, xS, xMain [lc [(['y'], 9)]]] ['e']).st.trace.getLast? = some (.probe 7 (.val 5)) ∧
+      (runX .spec [xB, xS, xMain [lc [(['y'], 9)]]] ['e']).st.trace.getLast? = some (.probe 7 (.val 9)) ∧
+      resErr (runX .now [xB, xS, xMain [lc [(['q'], 9)]]] ['e']).res = none ∧
+      resErr (runX .spec [xB, xS, xMain [lc [(['q'], 9)]]] ['e']).res = some .withNotDefault) := by
+  refine ⟨⟨?_, ?_⟩, ⟨?_, ?_, ?_⟩, ⟨?_, ?_, ?_, ?_⟩⟩ <;> decide
+
+-- non-vacuity: an import that is an inclusion, an import cycle, a load-css (specified) that succeeds
+private def xT : XSrc := ⟨['t'], [['t']], true, [.base (.var ['z'] 3 false), .imp (Url.flat ['t'] false)]⟩
+example : resolveX [xB, xT] (Url.flat ['t'] false) = some xT ∧ xT.parseError = false ∧ xT.sheet = true ∧
+    xT.body.all sheetStmtOK = true ∧ xT.body.any XStmt.isLoad = false ∧ ([['e']] : List Ident).contains xT.name = false ∧
+    ([['t'], ['e']] : List Ident).contains xT.name = true := by decide
+example : resErr (runX .now [xB, xT, xMain [.imp (Url.flat ['t'] false)]] ['e']).res = some .importLoop ∧
+    (XProject.ok [xB, xS, xMain [lc []]]) = true ∧ (expandProj true [xB, xS, xMain [lc []]]).wf = true := by decide
+example : resErr (step .spec (load .spec (expandProj false [xB, xS, xMain []]) 4) (.loadCssSpec (Url.flat ['s'] false) [(['y'], 9)])
+    (Env.new ['e']) Cfg.empty ⟨[], [['e']], [['e']], []⟩).res = none := by decide
+
+/-- **Private members are not listed.** `meta.module-variables` / `meta.module-functions` (the
+    `pkeys` statement) never report a private name, whatever the module declares or forwards. -/
+theorem C12_private_not_in_module_keys (sw : Switches) (loadF : LoadF) (pid : Nat) (k : Kind) (ns : Ident) (env : Env)
+    (cfg : Cfg) (st : St) (ks : List Ident)
+    (h : (step sw loadF (.pkeys pid k ns) env cfg st).st.trace.getLast? = some (.probe pid (.keys ks)))
+    (hok : resErr (step sw loadF (.pkeys pid k ns) env cfg st).res = none) :
+    ∀ n ∈ ks, isPrivate n = false := by
+  cases hl : env.nss.lookup ns with
+  | none => simp [step, hl, resErr] at hok
+  | some id =>
+    simp only [step, hl, St.emit, List.getLast?_append, List.getLast?_singleton, Option.some_or, Option.some.injEq,
+      Event.probe.injEq, PRes.keys.injEq, true_and] at h
+    intro n hn
+    rw [← h] at hn
+    simpa using (List.mem_filter.mp hn).2
+
+example : (step .now (fun _ _ st => ⟨st, .error .notFound⟩) (.pkeys 1 .var ['a']) { Env.new ['e'] with nss := [(['a'], 0)] } Cfg.empty
+    ⟨[⟨['a'], [(['x'], 1), (['-', 'p'], 2)], [], [], [], [], []⟩], [['e']], [['e']], []⟩).st.trace.getLast?
+    = some (.probe 1 (.keys [['x']])) := by decide
 
 end Grass.Module
